@@ -63,6 +63,8 @@ func buildStream(name string, cfg *config) (Stream, map[string]string, error) {
 	case name == "builtins":
 		s, sk := buildBuiltins(newEnv(), cfg.tier)
 		return s, sk, nil
+	case name == "infix":
+		return buildInfix(cfg.tier), nil, nil
 	case name == "mutants":
 		n := 2000
 		if thorough {
@@ -700,8 +702,8 @@ func parentMain(a lib.Args, cfg *config) {
 	out := lib.NewOut(a.Out)
 	out.Rule = "nontrivial = an input whose evaluation reached the generator (model-tie cases); evaluations counts every (input, entry point) run"
 
-	order := []string{"builtins", "forms", "specials", "mutants", "tokext", "tokcore"}
-	chunk := map[string]int{"specials": 1, "forms": 1500, "builtins": 800, "mutants": 100, "tokext": 8000, "tokcore": 8000}
+	order := []string{"builtins", "forms", "specials", "infix", "mutants", "tokext", "tokcore"}
+	chunk := map[string]int{"specials": 1, "forms": 1500, "builtins": 800, "infix": 400, "mutants": 100, "tokext": 8000, "tokcore": 8000}
 	inputTimeout := 10 * time.Second
 	if cfg.tier == "thorough" {
 		inputTimeout = 20 * time.Second
